@@ -239,6 +239,22 @@ def run(ctx, crate):
     appends += [s for s in all_app if s.args[0] in carriers and s not in carrier_appends]
     other_mut = [s for s in sites if s.args and s.args[0] == matches and s not in pushes and s not in appends and s not in carrier_appends
                  and not s.path.endswith(("::len", "::iter", "::clone", "::is_empty"))]
+    # a recursive result handed over element by element (`matches.extend(walk(..))`, `for n in walk(..) { matches.push(n) }`): the loop runs over the
+    # result itself, in list order, to exhaustion, and pushes every element under the loop's own guard -- the same as one append at the loop
+    import order as O_
+    elementwise = {}
+    for p_ in list(pushes):
+        x_ = p_.args[1]
+        if x_[0] != "elem":
+            continue
+        for r in rec:
+            if x_[1] == r.result:
+                lps_ = [lp for lp in O_.loops_of_body(w) if lp.iterable == r.result and p_.bb in lp.blocks]
+                if len(lps_) == 1 and lps_[0].order == "ordered" and not lps_[0].exits()[1] and w.loops_of(p_.bb) == w.loops_of(r.bb) + [lps_[0].head] \
+                        and w.dominates(r.bb, lps_[0].head) and S.block_guard(w, p_.bb) == S.block_guard(w, lps_[0].site.bb) and p_.guard == r.guard:
+                    elementwise[id(r)] = (p_, lps_[0])
+                    pushes.remove(p_)
+                break
     ok_push = False
     if len(pushes) == 1:
         p = pushes[0]
@@ -252,14 +268,17 @@ def run(ctx, crate):
         res = r.result
         ap = [a for a in appends if len(a.args) == 2 and a.args[1] == res and w.dominates(r.bb, a.bb) and a.guard == r.guard]
         uses = [s for s in sites if s is not r and any(T.contains(x, res) for x in s.args)]
+        ew = elementwise.get(id(r))
         if len(ap) == 1 and len(uses) == 1:
+            flowing += 1
+        elif ew and not ap and len(uses) == 2 and all(u is ew[0] or u.bb == ew[1].site.bb for u in uses):
             flowing += 1
         else:
             obs.append(Ob("R01.preorder", WALKER, "result of a recursive call appended once", False, site=r.where,
                           expected="matches.append(&mut walk(..)) and no other use", found="appends=%d uses=%d" % (len(ap), len(uses))))
     appends = [a for a in appends if a not in carrier_appends]
-    obs.append(Ob("R01.preorder", WALKER, "every recursive result is appended to the result list", flowing == len(rec) and len(appends) == len(rec),
-                  expected="%d appends" % len(rec), found="%d appended, %d append sites" % (flowing, len(appends))))
+    obs.append(Ob("R01.preorder", WALKER, "every recursive result is appended to the result list", flowing == len(rec) and len(appends) + len(elementwise) == len(rec),
+                  expected="%d appends" % len(rec), found="%d appended, %d append sites, %d element-wise" % (flowing, len(appends), len(elementwise))))
     obs.append(Ob("R01.preorder", WALKER, "no other mutation of the result list", not other_mut, found=[s.path for s in other_mut] or "none"))
     obs.append(Ob("R01.preorder", WALKER, "the result list is returned", T.is_call(matches, "new") or matches[0] in ("call", "agg"), found=show(matches)[:60]))
     ret_defs = S.def_table(w, 0)
